@@ -496,3 +496,14 @@ def run(db, ctx):
     r194(db, ctx, F)
     r195(db, ctx, F)
     r196(db, ctx)
+
+
+def storage_rules(db, ctx):
+    """Row-count / row-vector pairing of every length change (R19.2) and the flat views (R19.5): shared into the properties whose buffers are
+    DenseMatrix values that get resized and re-read (C02, C04, C06)."""
+    F = dm_fields(db)
+    if not F:
+        ctx.fail('R19.0', DM, 'struct shape', 'reason=anchor-missing: DenseMatrix is not {Vec<Row>, usize}')
+        return
+    r192(db, ctx, F)
+    r195(db, ctx, F)
